@@ -15,11 +15,16 @@ static char verif_this_module[64] __attribute__((section(".gnu.linkonce.this_mod
 '''
 
 
-def files_for(m, exported, kind):
+def files_for(m, exported, kind, shadows=()):
+    """shadows: [(name, tu)] -- a *static* function called `name` in translation unit `tu` (another unit than the one that
+    defines and possibly exports the global `name`): a local symbol of the same name, which comes first in the symbol table."""
     files = M.render_files(m)
     for k in range(M.ntus(m)):
         f = "tu%d.c" % k
         extra = [PRELUDE]
+        for n, tu in shadows:
+            if tu == k:
+                extra.append("static __attribute__((used, noinline)) long %s(long a, long b) { return a * 3 + b; }" % n)
         if k == 0 and kind == "module":
             extra.append(MODINFO)
         for kk, i in M.interfaces(m):
@@ -29,10 +34,10 @@ def files_for(m, exported, kind):
     return files
 
 
-def build_kernel_object(m, cfg, d, exported, kind="module"):
+def build_kernel_object(m, cfg, d, exported, kind="module", shadows=()):
     c = dict(cfg)
     if kind == "module":
         c["kind"] = "rel"
-        return cbuild.compile_model(m, c, d, out="mod.ko", files=files_for(m, exported, kind))
+        return cbuild.compile_model(m, c, d, out="mod.ko", files=files_for(m, exported, kind, shadows))
     c["kind"] = "exe"
-    return cbuild.compile_model(m, c, d, out="vmlinux", files=files_for(m, exported, kind), extra_ld=["-static", "-nostdlib"])
+    return cbuild.compile_model(m, c, d, out="vmlinux", files=files_for(m, exported, kind, shadows), extra_ld=["-static", "-nostdlib"])
